@@ -266,6 +266,24 @@ def seam(check, prog, canon):
                   'Mie._scat_coeffs truncation', 'nstop computed from the same x', loc)
 
 
+def _outside(t, shields, target):
+    """occurrences of `target` in `t` that are not inside one of `shields`"""
+    out = []
+
+    def go(x):
+        if x in shields:
+            return
+        if x == target:
+            out.append(x)
+            return
+        if isinstance(x, tuple):
+            for y in x:
+                if isinstance(y, tuple):
+                    go(y)
+    go(t)
+    return out
+
+
 def albl(check, prog, canon):
     q = MLF + 'AlBlFunctions.calculate_al_bl'
     fd = prog.func(q)
@@ -284,10 +302,30 @@ def albl(check, prog, canon):
     def f(fn, z, d):
         kws = (('derivative', ('const', True)),) if d else ()
         return intern(('call', fn, (l_, z), kws))
-    nx = intern(('bin', '*', n_, x_))
-    env = {'m': n_, 'psi_mx': f(psi, nx, False), 'dpsi_mx': f(psi, nx, True),
+    # xi_n is built on h2_n = j_n - i y_n (checked below): the formulas are those of
+    # the e^{+i w t} convention (van de Hulst), whose results are the complex
+    # conjugates of the library's Lorenz-Mie (Bohren & Huffman) ones, and in which
+    # an absorbing index is n - i k.  The library's own convention (Mie, Sphere.n,
+    # the documentation) is n + i k, so the index must enter conjugated; otherwise
+    # a_l(m) = conj(a_BH(conj m)) and an absorbing sphere is computed as a gain
+    # medium.  (For a real index nothing changes.)
+    conj_forms = [intern(('call', 'numpy.conj', (n_,), ())),
+                  intern(('call', 'numpy.conjugate', (n_,), ())),
+                  intern(('call', ('attr', n_, 'conjugate'), (), ())),
+                  intern(('call', ('attr', n_, 'conj'), (), ()))]
+    used = [m_ for m_ in conj_forms if any(x == m_ for x in subterms(a))]
+    m_ = used[0] if used else n_
+    nx = intern(('bin', '*', m_, x_))
+    env = {'m': m_, 'psi_mx': f(psi, nx, False), 'dpsi_mx': f(psi, nx, True),
            'psi_x': f(psi, x_, False), 'dpsi_x': f(psi, x_, True),
            'xi_x': f(xi, x_, False), 'dxi_x': f(xi, x_, True)}
+    bare = any(x == n_ and True for t_ in (a, b) for x in _outside(t_, conj_forms, n_))
+    check.require(bool(used) and not bare, 'H4-al-bl', 'index convention',
+                  'the relative index enters the e^{+iwt}-convention series conjugated '
+                  '(Im n > 0 absorbs, as for the Lorenz-Mie solver)', loc,
+                  fail_detail='calculate_al_bl uses index_ratio as given while xi_n is '
+                  'built on h2_n: a_l(m) = conj(a_LorenzMie(conj m)), so a sphere with '
+                  'n = 1.5 + 0.1j gains energy (Q_ext < Q_sca) in MieLens and absorbs in Mie')
     # Bohren & Huffman eq. 4.53
     wa = expr_term(prog, '(m*psi_mx*dpsi_x - psi_x*dpsi_mx) / (m*psi_mx*dxi_x - xi_x*dpsi_mx)',
                    env)
